@@ -352,6 +352,11 @@ def correspond(run: Run, tier, rng):
         # a cumulative sum that ends below the last tooth, with trailing zeros
         (5, [0.5, 0.5 - 2.0 ** -30, 0.0, 0.0], 1 - 2.0 ** -40),
     ]
+    for n in ([3, 5, 6, 7, 9, 10, 12] if tier == "quick" else list(range(3, 41))):
+        for u0 in (float(np.nextafter(1.0, 0.0)), 1.0 - 2.0 ** -52, 0.0):
+            # a weight boundary exactly at fl(1/n) (resp. fl((n-1)/n)): tooth 0 (resp. n-2) must stay below it
+            corpus.append((n, [1.0 / n, 1.0 - 1.0 / n], u0))
+            corpus.append((n, [(n - 1.0) / n, 1.0 - (n - 1.0) / n], u0))
     for (n, w, u0) in corpus:
         cases.append((n, w, float(np.sum(np.array(w))), u0))
     for t in range(n_base):
@@ -543,8 +548,37 @@ Eval vm_compute in [
     run.count("dispatch_cases", len(cases))
 
 
+def multinomial_tail_search(run: Run):
+    """Resampler.run(resample='mult') with a trailing zero-weight sample and a sum just inside the accepted band (no renormalisation
+    happens): many draws; the zero-weight sample must never be selected."""
+    from tempest.state_manager import StateManager
+    from tempest.steps.resample import Resampler
+    m = 8
+    w = np.array([0.25, 0.125, 0.125, 0.25, 0.0625, 0.0625, 0.125 - 1.4e-8, 0.0])
+    st = StateManager(1)
+    st.update_current({"u": np.linspace(0.1, 0.9, m)[:, None], "x": np.zeros((m, 1)), "logl": np.arange(m, dtype=float), "beta": 0.0, "logz": 0.0, "iter": 0})
+    st.commit_current_to_history()
+    st.set_current("beta", 0.5)
+    npart = 2_000_000
+    for seed in range(1000, 1060):
+        np.random.seed(seed)
+        rs = Resampler(state=st, n_particles=npart, resample="mult", clusterer=None, clustering=False)
+        rs.run(w.copy())
+        idx = st.get_current("logl").astype(int)
+        if np.any(idx == m - 1):
+            run.fail("zero-weight-selected", f"mult: the zero-weight last sample was selected {int(np.sum(idx == m - 1))} time(s) in {npart} draws",
+                     scheme="mult", seed=seed, w=[float(x).hex() for x in w], n_particles=npart)
+            return
+
+
 def search(run: Run):
     """Directed search for a failing input on the implementation (used when something broke)."""
+    try:
+        multinomial_tail_search(run)
+    except Exception as e:
+        run.notes.append(f"multinomial tail search raised {type(e).__name__}: {e}")
+    if run.failures:
+        return
     rng = random.Random(1234)
     for t in range(400):
         m = rng.choice([2, 3, 4, 6])
